@@ -35,10 +35,23 @@ class WildHolder:  # a single-valued wildcard: the parser stores text + children
     any_element: Optional[object] = field(default=None, metadata={"type": "Wildcard"})
 
 
+@dataclass
+class WildGuest:  # a model that is no field type of WildHolder: inside a wildcard it is found by its (unique) property names
+    vf_c04_guest_code: Optional[int] = field(default=None, metadata={"type": "Element"})
+    vf_c04_guest_note: Optional[str] = field(default=None, metadata={"type": "Element"})
+
+
+@dataclass
+class WildList:
+    items: List[object] = field(default_factory=list, metadata={"type": "Wildcard"})
+
+
 def instances():
     from xsdata.formats.dataclass.models.generics import AnyElement
 
     return [
+        WildHolder(any_element=WildGuest(vf_c04_guest_code=3, vf_c04_guest_note="n")),
+        WildList(items=[WildGuest(vf_c04_guest_code=1, vf_c04_guest_note="a"), AnyElement(qname="g", text="t"), WildGuest(vf_c04_guest_code=2, vf_c04_guest_note="b")]),
         WildHolder(any_element=AnyElement(qname=None, text="text", children=[AnyElement(qname="foo", text="")])),
         WildHolder(any_element=AnyElement(qname="named", text="t", tail=None, attributes={"k": "v"})),
         UnionHolder(item=Named(code="abc")),
